@@ -79,7 +79,9 @@ class Catalog:
         self.profile = profile
         self.vendor, self.hw, self.prefix, self.exit = check_profile(profile)
         cfgp = os.path.join(ctx.scratch, "cases_%s.cfg" % profile)
-        src = open(os.path.join(core.SPEC, "mc", "MC_Cases.cfg")).read().replace('Prefix = "undo"', 'Prefix = "%s"' % self.prefix)
+        px = {"undo": "undox", "no": "notify", "-": "-x", "delete": "deleted", "remove": "removex"}[self.prefix]
+        src = open(os.path.join(core.SPEC, "mc", "MC_Cases.cfg")).read().replace('Prefix = "undo"', 'Prefix = "%s"' % self.prefix).replace(
+            '"undox"', '"%s"' % px)
         open(cfgp, "w").write(src)
         r = ctx.mc("mc/MC_Cases.tla", cfgp, name="MC_Cases[%s]" % profile, workers=1, timeout=900)
         if r.violated:
